@@ -1,7 +1,10 @@
 package props
 
 import (
+	"fmt"
+	"os"
 	"path/filepath"
+	"sort"
 	"strings"
 
 	"goacheck/an"
@@ -54,4 +57,239 @@ func AnchorRules(c *an.Ctx) {
 	}
 	c.Okf(rule, "anchor files#control-flow lints", "%d functions of the anchor files: no stale search flag, stale per-iteration variable, inconsistent seen-set key, dropped recursion guard or in-place slice reuse", len(funcs))
 	c.Floor(rule, len(funcs), 10, "functions declared in the anchor files")
+	anchorParity(c, id+".L2", funcs)
+	anchorRoles(c, id+".L3", funcs)
+	anchorTags(c, id+".L4")
+	anchorTplCalls(c, id+".L5")
+	anchorCopies(c, id+".L6", funcs)
+}
+
+// reviewedCopyGaps: fields the copy constructors of the reference tree leave
+// out, each read and found harmless (function|type|field -> reason).
+var reviewedCopyGaps = map[string]string{
+	"codegen.AttributeContext.Dup|AttributeContext|IsInterface": "transient flag that the union transform sets and resets around its own recursion; not part of a context's identity",
+	"expr.DupScheme|SchemeExpr|Name":                            "transport location of the credential; every caller recomputes Name and In on the copy (HTTPEndpointExpr.Finalize, GRPCEndpointExpr.Finalize)",
+	"expr.HTTPResponseExpr.Dup|HTTPResponseExpr|Tag":            "copies are made of error responses and of the streaming response for the docs; Tag selects between result responses and is not read on a copy",
+	"expr.ResultTypeExpr.Dup|ResultTypeExpr|ContentType":        "upstream omission; response content types are resolved from the design's own result type in HTTPResponseExpr.Finalize and copied explicitly by buildHTTPResponseBody",
+	"expr.dupper.DupAttribute|AttributeExpr|Docs":               "upstream omission; external documentation links are read from the design's own attributes by the OpenAPI builders",
+	"http/codegen/openapi.Schema.Dup|Schema|Example":            "Schema.Dup is an exported helper no generator calls",
+	"http/codegen/openapi.Schema.Dup|Schema|ExclusiveMinimum":   "Schema.Dup is an exported helper no generator calls",
+	"http/codegen/openapi.Schema.Dup|Schema|ExclusiveMaximum":   "Schema.Dup is an exported helper no generator calls",
+	"http/codegen/openapi.Schema.Dup|Schema|AnyOf":              "Schema.Dup is an exported helper no generator calls",
+	"http/codegen/openapi.Schema.Dup|Schema|Extensions":         "Schema.Dup is an exported helper no generator calls",
+}
+
+// anchorCopies: copy constructors (an.SelfCopies) set every field of the type.
+func anchorCopies(c *an.Ctx, rule string, funcs []*an.Func) {
+	n, fields := 0, 0
+	for _, f := range funcs {
+		for _, sc := range an.SelfCopies(f) {
+			n++
+			fields += sc.Mapped
+			for _, m := range sc.Missing {
+				if _, ok := reviewedCopyGaps[f.Name+"|"+sc.Type+"|"+m]; ok {
+					continue
+				}
+				c.Failf(rule, fmt.Sprintf("%s{%s.%s}", f.Name, sc.Type, m), sc.Lit.Pos(), "the copy of %s built here sets neither in the literal nor afterwards the field %s: the copy silently loses it", sc.Type, m)
+			}
+		}
+	}
+	if n > 0 {
+		c.Okf(rule, "anchor files#copy constructors", "%d copy constructors set every field of the copied type (reviewed omissions aside)", n)
+	}
+}
+
+// anchorTemplates lists the template files the property is anchored in.
+func anchorTemplates(c *an.Ctx) []string {
+	var out []string
+	for _, a := range anchorFiles[c.Prop] {
+		switch {
+		case strings.HasSuffix(a, ".tpl"):
+			out = append(out, a)
+		case strings.HasSuffix(a, "/"):
+			out = append(out, c.TplDir(strings.TrimSuffix(a, "/"))...)
+		}
+	}
+	sort.Strings(out)
+	return out
+}
+
+// anchorTplCalls: calls to the runtime packages in the anchor templates pass
+// the data fields named after the callee's parameters at those parameters'
+// positions (an/tplcalls.go).
+func anchorTplCalls(c *an.Ctx, rule string) {
+	tpls := anchorTemplates(c)
+	if len(tpls) == 0 {
+		return
+	}
+	scopes := map[string]string{"goa": "pkg", "goahttp": "http", "goagrpc": "grpc"}
+	calls, named := 0, 0
+	for _, rel := range tpls {
+		b, err := os.ReadFile(filepath.Join(c.Repo, rel))
+		if err != nil {
+			c.Add(an.Obligation{Rule: rule, Construct: rel, Status: an.LOST, Detail: err.Error()})
+			continue
+		}
+		for qual, dir := range scopes {
+			p := c.Pkg(dir)
+			if p == nil {
+				continue
+			}
+			cs := an.TplCalls(string(b), qual)
+			calls += len(cs)
+			n, swaps := an.TplSwappedArgs(cs, p.Types.Scope())
+			named += n
+			for _, sw := range swaps {
+				c.Failf(rule, rel+"#"+sw[:strings.Index(sw, ":")], 0, "%s: %s (same type, so the generated code compiles)", rel, sw)
+			}
+		}
+	}
+	if named > 0 {
+		c.Okf(rule, "anchor templates#runtime call arguments", "%d calls to goa/goahttp/goagrpc functions in %d templates; %d arguments are data fields named after a parameter of the callee, each at that parameter's position", calls, len(tpls), named)
+	}
+}
+
+// anchorTags: json/yaml struct tag agreement in the packages of the anchor
+// files (document types are rendered in both formats from the same structs).
+func anchorTags(c *an.Ctx, rule string) {
+	dirs := map[string]bool{}
+	for _, a := range anchorFiles[c.Prop] {
+		if strings.HasSuffix(a, ".go") {
+			dirs[filepath.ToSlash(filepath.Dir(a))] = true
+		} else if strings.HasSuffix(a, "/") && !strings.Contains(a, "templates") {
+			dirs[strings.TrimSuffix(a, "/")] = true
+		}
+	}
+	total := 0
+	var names []string
+	for d := range dirs {
+		names = append(names, d)
+	}
+	sort.Strings(names)
+	for _, d := range names {
+		n, mis := c.TagMismatches(d, nil)
+		total += n
+		for _, m := range mis {
+			c.Failf(rule, fmt.Sprintf("%s.%s.%s#tags", d, m.Struct, m.Field), m.Pos, "field %s.%s is tagged json:%q but yaml:%q: the JSON and YAML renderings of the same value differ", m.Struct, m.Field, m.JSON, m.YAML)
+		}
+	}
+	if total > 0 {
+		c.Okf(rule, "anchor packages#json/yaml tags", "%d struct fields tagged for both json and yaml carry identical tags", total)
+	}
+}
+
+// anchorRoles: name roles in WalkMappedAttr callbacks (an/roles.go).
+func anchorRoles(c *an.Ctx, rule string, funcs []*an.Func) {
+	sites := 0
+	for _, f := range funcs {
+		n, mis := an.RoleMisuses(f)
+		sites += n
+		for _, m := range mis {
+			c.Failf(rule, fmt.Sprintf("%s#%s(%s)", f.Name, m.Callee, m.Arg), m.Pos,
+				"the WalkMappedAttr callback passes its %s parameter %s to %s, which expects an %s: the two differ whenever the design maps an attribute to a differently named transport element (\"attr:Element\")", m.Has, m.Arg, m.Callee, m.Wants)
+		}
+	}
+	if sites > 0 {
+		c.Okf(rule, "anchor files#name roles", "%d role-typed arguments in WalkMappedAttr callbacks: attribute names and element names are passed where they are expected", sites)
+	}
+}
+
+// parityPairs are the concept pairs the code base handles by parallel code.
+var parityPairs = [][2]string{{"header", "cookie"}, {"header", "trailer"}}
+
+// reviewedParity lists the asymmetries of the reference tree, each read and
+// found intended (function -> reason). Keyed by function, word and normalised
+// unit, so that any other asymmetry in the same function is still reported.
+var reviewedParity = map[string]string{}
+
+func init() {
+	add := func(fn, word, reason string, norms ...string) {
+		for _, n := range norms {
+			reviewedParity[fn+"|"+word+"|"+n] = reason
+		}
+	}
+	add("expr.HTTPEndpointExpr.Finalize", "header", "security credentials are mapped to a header (or a query parameter), never to a cookie",
+		"_.□s.Type.(*Object).Set(_, _)", "_.□s.Map(_.Name, _)", "_.□s.Validation == nil", "_.□s.Validation = &ValidationExpr{}", "_.□s.Validation.AddRequired(_)")
+	add("http/codegen.ServicesData.analyze", "header", "security schemes located in headers; there is no cookie location for schemes", "□schemes: _")
+	add("http/codegen.buildErrorsData", "header", "the goa-error response header has no cookie counterpart", "Error□: _.Name")
+	add("http/codegen/openapi/v3.responseFromExpr", "header", "OpenAPI response objects have headers only; cookies are documented as a Set-Cookie header", "□s: _")
+	add("expr.HTTPErrorExpr.Validate", "header", "upstream validates error response headers only (cookies of error responses are not checked against the error type)",
+		"_.Response.□s != nil", "!_.Response.□s.IsEmpty()", "_.Merge(_.Response.□s.Validate(\"HTTP error response □s\", _.Response))", "AsObject(_.Response.□s.Type)")
+	add("expr.HTTPResponseExpr.mapUnmappedAttrs", "header", "with SkipResponseBodyEncodeDecode the unmapped result attributes are sent as headers by design",
+		"_.□s.FindKey(_.Name)", "_.□s.Type.(*Object).Set(_.Name, _.Attribute)", "_.□s.Map(\"goa-attribute-\"+_.Name, _.Name)", "_.□s.Validation == nil", "_.□s.Validation = &ValidationExpr{}", "_.□s.Validation.AddRequired(_.Name)", "_.□s.IsEmpty()", "_.□s.Type.(*Object).Set(\"goa-attribute\", _)")
+	add("expr.HTTPServiceExpr.Validate", "header", "service-level cookies are validated with the endpoints that inherit them", "_.□s != nil", "_.Merge(_.□s.Validate(\"□s\", _))")
+	add("expr.findKey", "header", "security keys are looked up in params, headers and body only", "_.□s.FindKey(_)")
+	add("http/codegen/openapi/v2.paramsFromHeaders", "header", "OpenAPI v2 has no cookie parameter location (known finding R07.3 covers the omission)", "_.□s.IsRequiredNoDefault(_)")
+	add("http/codegen/openapi/v2.responseSpecFromExpr", "header", "OpenAPI v2 responses document headers only", "□sFromExpr(_.□s)")
+}
+
+func swapWord(name, a, b string) string {
+	// case-preserving swap of the first occurrence of a by b
+	i := strings.Index(strings.ToLower(name), a)
+	if i < 0 {
+		return ""
+	}
+	rep := b
+	if name[i] >= 'A' && name[i] <= 'Z' {
+		rep = strings.ToUpper(b[:1]) + b[1:]
+	}
+	return name[:i] + rep + name[i+len(a):]
+}
+
+// anchorParity: sibling-field parity (an/parity.go) over the anchor functions.
+// A function named after one word of a pair is compared with its sibling
+// function named after the other (headers()/cookies()) when that exists.
+func anchorParity(c *an.Ctx, rule string, funcs []*an.Func) {
+	byName := map[string]*an.Func{}
+	for _, d := range c.ModuleDirs() {
+		for _, f := range c.AllFuncs(d) {
+			byName[f.Name] = f
+		}
+	}
+	units, checked := 0, 0
+	reported := map[string]bool{}
+	for _, pair := range parityPairs {
+		for _, f := range funcs {
+			var asym []an.ParityAsym
+			short := f.Name[strings.LastIndex(f.Name, ".")+1:]
+			low := strings.ToLower(short)
+			switch {
+			case strings.Contains(low, pair[0]) && strings.Contains(low, pair[1]):
+				asym = an.Parity(f, pair[0], pair[1])
+			case strings.Contains(low, pair[0]):
+				sib := byName[f.Name[:len(f.Name)-len(short)]+swapWord(short, pair[0], pair[1])]
+				if sib == nil {
+					continue // one-sided by name, no counterpart function
+				}
+				asym = an.ParityBetween(f, sib, pair[0], pair[1])
+			case strings.Contains(low, pair[1]):
+				sib := byName[f.Name[:len(f.Name)-len(short)]+swapWord(short, pair[1], pair[0])]
+				if sib == nil {
+					continue
+				}
+				asym = an.ParityBetween(sib, f, pair[0], pair[1])
+			default:
+				asym = an.Parity(f, pair[0], pair[1])
+			}
+			checked++
+			for _, a := range asym {
+				units++
+				key := f.Name + "|" + a.Word + "|" + a.Norm
+				if _, ok := reviewedParity[key]; ok || reported[key] {
+					continue
+				}
+				reported[key] = true
+				c.Failf(rule, fmt.Sprintf("%s#%s/%s{%s}", f.Name, pair[0], pair[1], a.Norm), a.Pos,
+					"%s are handled by `%s` here but the %s counterpart of this code is missing or different: the code base treats %ss and %ss by parallel code, and the struct has both fields", a.Word+"s", a.Src, otherWord(pair, a.Word), pair[0], pair[1])
+			}
+		}
+	}
+	c.Okf(rule, "anchor files#sibling-field parity", "%d functions compared for header/cookie and header/trailer parity; %d asymmetric units are all in the reviewed table", checked, units)
+}
+
+func otherWord(pair [2]string, w string) string {
+	if w == pair[0] {
+		return pair[1]
+	}
+	return pair[0]
 }
